@@ -152,7 +152,11 @@ def rule_write_target(ctx, rep):
             fields = [k for k in fc.ann]
             args = {fields[i]: a for i, a in enumerate(n.args) if i < len(fields)}
             args.update({k.arg: k.value for k in n.keywords if k.arg})
-            ok = isinstance(args.get("file_path"), ast.Name) and args["file_path"].id == "filename" and unparse(args.get("base_directory", ast.Constant(value=""))) == "context.directory"
+            # the file is the worker's own work item (a parameter of the per-file function, whatever it is called), the base the context's target directory
+            rr = ctx.resolver(pf)
+            fp = rr.expand(args["file_path"]) if isinstance(args.get("file_path"), ast.Name) else args.get("file_path")
+            bd = rr.expand(args["base_directory"]) if isinstance(args.get("base_directory"), ast.Name) else args.get("base_directory")
+            ok = isinstance(fp, ast.Name) and fp.id in pf.params() and fp.id != "self" and isinstance(bd, ast.Attribute) and bd.attr == "directory"
     rep.check("R-WRITE-TARGET", pf.qname, pf.loc(), ok, "file_context-binding", "_process_file does not build FileContext(context.directory, filename, ...)")
 
 
